@@ -83,4 +83,40 @@ MUT = {
             return await aio.shield(fut)
         finally:
             self._retention_cache.pop(key, None)""", 'C09'),
+ 'c03_fresh_inputs': ('aiuti/asyncio.py', """            except (aio.TimeoutError, aio.CancelledError):
+                await self._run_func(inputs)""", """            except (aio.TimeoutError, aio.CancelledError):
+                await self._run_func(inputs)
+                inputs = set()""", 'C03'),
+ 'c03_set_on_failure': ('aiuti/asyncio.py', """            logging.exception("Failed to run %s, retrying", self.func)
+        else:
+            self.event.set()""", """            logging.exception("Failed to run %s, retrying", self.func)
+            self.event.set()
+        else:
+            self.event.set()""", 'C03'),
+ 'c03_drop_prefix': ('aiuti/asyncio.py', """            try:
+                async for i in iterable:
+                    inputs.add(i)
+            except BaseException:  # noqa""", """            try:
+                _tmp = [i async for i in iterable]
+                inputs.update(_tmp)
+            except BaseException:  # noqa""", 'C03'),
+ 'c07_clear_after_done': ('aiuti/asyncio.py', """            self.event.clear()  # Ensure cleared in case previous cancel
+            self.q.task_done()""", """            self.q.task_done()
+            await aio.sleep(0)
+            self.event.clear()  # Ensure cleared in case previous cancel""", 'C07'),
+ 'c07_no_join': ('aiuti/asyncio.py', "        await self.loop.create_task(self.q.join())\n", "        pass\n", 'C07'),
+ 'c07_no_sleep0': ('aiuti/asyncio.py', "            await aio.sleep(0)\n            self._getting.cancel()", "            self._getting.cancel()", 'C07'),
+ 'c07_event_set_on_empty_only': ('aiuti/asyncio.py', """            if inputs:  # Could be empty if all empty iterators
+                await self.func(inputs)""", """            if inputs:  # Could be empty if all empty iterators
+                await self.func(inputs)
+                return""", 'C07'),
+ 'c08_no_rearm': ('aiuti/asyncio.py', "            self._getting = self._schedule_with_timeout(self.q.get())\n", "            self._getting = self._getting if (self._getting and not self._getting.done()) else self._schedule_with_timeout(self.q.get())\n", 'C08'),
+ 'c08_no_empty_guard': ('aiuti/asyncio.py', """            if inputs:  # Could be empty if all empty iterators
+                await self.func(inputs)""", """            if True:
+                await self.func(inputs)""", 'C08'),
+ 'c08_run_as_task': ('aiuti/asyncio.py', """            except (aio.TimeoutError, aio.CancelledError):
+                await self._run_func(inputs)""", """            except (aio.TimeoutError, aio.CancelledError):
+                self.loop.create_task(self._run_func(set(inputs)))
+                return""", 'C08'),
+ 'c08_half_timeout_after_first': ('aiuti/asyncio.py', "        return self.loop.create_task(aio.wait_for(coro, self.timeout))", "        self._n = getattr(self, '_n', 0) + 1\n        return self.loop.create_task(aio.wait_for(coro, self.timeout if self._n < 3 else self.timeout / 2))", 'C08'),
 }
